@@ -84,14 +84,16 @@ def run_case(case):
         m1 = np.zeros(n, dtype=bool); m1[::2] = True
         m2 = np.zeros(n, dtype=bool); m2[-1] = True; m2[n // 3] = True
         extra_sets += [("mask", m1), ("mask", m2), ("mask", np.ones(n, dtype=bool)), ("list", list(range(n - 1, -1, -3)))]
+    # the empty subset, in its three spellings
+    extra_sets += [("empty", []), ("empty", np.array([], dtype=int)), ("empty", np.zeros(n, dtype=bool))]
     for kind_, a in extra_sets:
         try:
             pi_ = np.asarray(fg.get_position_index(a)); qi_ = np.asarray(fg.get_quaternion_index(a))
         except Exception as e:
             vs.append(viol(pre + f"|index_{kind_}_raises", f"index helper raised {type(e).__name__} for a {kind_} index", case))
             continue
-        full = np.arange(n)[a]
-        if not (np.array_equal(pi_, full // n_b) and np.array_equal(qi_, full % n_b)):
+        full = np.arange(n)[np.asarray(a, dtype=int) if kind_ == "empty" and not isinstance(a, np.ndarray) else a]
+        if not (pi_.shape == full.shape and qi_.shape == full.shape and np.array_equal(pi_, full // n_b) and np.array_equal(qi_, full % n_b)):
             vs.append(viol(pre + f"|index_helpers_{kind_}", f"index helpers are not (n div n_b, n mod n_b) for a {kind_} index "
                            "subset", case, expected=(full // n_b).tolist()[:8], observed=pi_.tolist()[:8]))
     count = 0
@@ -150,6 +152,10 @@ def cases(tier):
     rr = [str(F(10 + i, 100)) for i in range(30)]
     for b, o in (("1", "ico_3"), ("cube4D_2", "1"), ("randomQ_3", "cube3D_2")):
         out.append({"b": b, "o": o, "t": "range(0.1, 0.4, 0.01)", "radii_nm": rr})
+    # radii that are not exact at any short decimal (thirds) under direction grids of a few dozen points
+    for b, o in (("1", "ico_42"), ("cube4D_2", "randomS_20"), ("1", "cube3D_26")):
+        out.append({"b": b, "o": o, "t": "linspace(0.2, 0.5, 10)", "radii_nm": [str(F(2, 10) + F(3, 90) * i) for i in range(10)]})
+        out.append({"b": b, "o": o, "t": "linspace(0.1, 0.2, 4)", "radii_nm": [str(F(1, 10) + F(1, 30) * i) for i in range(4)]})
     # shells that nearly coincide (relative distance 3e-8 and 2e-6)
     for b, o in (("1", "ico_5"), ("cube4D_3", "cube3D_4"), ("randomQ_4", "1")):
         out.append({"b": b, "o": o, "t": "[0.3, 0.30000001, 0.5]", "radii_nm": ["0.3", "0.30000001", "0.5"]})
